@@ -8,6 +8,9 @@
 // pooled writers/readers. The driver is built with -race; race reports are deciding.
 // Part 3 (framing.go): command sequences -> snapshot file -> chunk stream with boundaries
 // everywhere -> snapshot.Reader / BackupServer.Restore -> read back message-wise.
+// Part 4 (server.go): concurrent uncompressed self-describing requests against a server built by
+// regattaserver.NewServer (regatta's default server options) with the real KVServer; judged at the
+// handler and in the store.
 package main
 
 import (
@@ -16,6 +19,7 @@ import (
 	"os"
 	"path/filepath"
 	"reflect"
+	"regexp"
 	"runtime"
 	"runtime/debug"
 	"runtime/pprof"
@@ -83,7 +87,8 @@ func main() {
 	r.Rule("codec: seeded reflective values of every regattapb message type (all oneof arms incl. none, optional fields unset/zero/value, nil/empty/nasty/large bytes, nested sequences), " +
 		"decoded by the registered codec into a fresh object and, for Command and SnapshotChunk, into objects recycled with ResetVT / ReturnToVTPool after holding a different larger message; " +
 		"compressors: seeded payloads 0 B–8 MiB of six kinds, 16/32/64 goroutines exchanging compressed payloads; streams: seeded command sequences (0–2000 commands, values 0 B–2 MiB) " +
-		"written to a snapshot file and streamed with planned short reads. Non-trivial = (a) a Command with ≥1 oneof arm and ≥1 optional field set decoded into a recycled object that decodes equal, " +
+		"written to a snapshot file and streamed with planned short reads; server: 8/12/16 concurrent uncompressed clients with self-describing put/range/delete/txn requests (<256 B … 1 MiB) " +
+		"against regattaserver.NewServer + KVServer, judged at the handler and in the store. Non-trivial = (a) a Command with ≥1 oneof arm and ≥1 optional field set decoded into a recycled object that decodes equal, " +
 		"distinct by encoding, or (b) a stream with a chunk boundary strictly inside an 8-byte length prefix, distinct by seed and chunk lengths")
 	r.Assume("generated strings are valid UTF-8 and generated messages carry no unknown fields",
 		"nil and empty are the same value for bytes fields without presence (they are the same on the wire)",
@@ -147,6 +152,14 @@ func main() {
 			var c streamCase
 			_ = json.Unmarshal(doc.Case, &c)
 			runStreamCase(se, c)
+		case "server":
+			// schedule dependent: the round is repeated until it fails again (at most 5 times)
+			var c serverCase
+			_ = json.Unmarshal(doc.Case, &c)
+			for i := 0; i < 5 && r.Violations() == 0; i++ {
+				runServerRound(r, g, c)
+			}
+			raceVerdicts(r)
 		case "race", "crash", "":
 			// (an ev.Supervise "process-died" witness carries no case)
 			// schedule dependent: re-run the whole workload of this seed/tier and see whether a race is reported again
@@ -215,6 +228,9 @@ func main() {
 	r.FloorCount("streams", int64(r.Pick(140, 1700)))
 	r.FloorCount("streams_with_boundary_inside_length_prefix", int64(r.Pick(40, 450)))
 	r.FloorDistinct("stream_variants", int64(r.Pick(20, 30)))
+	r.FloorCount("server_requests", int64(r.Pick(3000, 40000)))
+	r.FloorCount("server_requests_held_while_another_was_received", int64(r.Pick(1500, 20000)))
+	r.FloorDistinct("server_request_size_classes", 4)
 	r.FloorNontrivial(int64(r.Pick(300, 12000)))
 	r.FloorCount("oracles_agree", 1)
 	if r.Get("oracle_disagreements") == 0 {
@@ -321,6 +337,17 @@ func runAll(r *ev.Run, ce *codecEnv, se *streamEnv) {
 			}(lane)
 		}
 	}
+	if parts == "" || strings.Contains(parts, "server") {
+		lanes.Add(1)
+		go func() {
+			defer lanes.Done()
+			t0 := time.Now()
+			for _, sc := range serverPlan(r) {
+				runServerRound(r, se.g, sc)
+			}
+			r.Extra("wall_s_server_lane", time.Since(t0).Seconds())
+		}()
+	}
 	t0 := time.Now()
 	for _, j := range jobs {
 		ch <- j
@@ -345,6 +372,9 @@ func raceLogPrefix() string {
 
 const regattaPkg = "github.com/jamf/regatta/"
 
+// generated service handlers: one signature per service, not per method
+var reGenHandler = regexp.MustCompile(`^regattapb\._([A-Za-z]+)_[A-Za-z]+_Handler$`)
+
 // stackFuncs returns the function names of one stack section of a race report, innermost first.
 func stackFuncs(section string) []string {
 	var out []string
@@ -368,7 +398,7 @@ func classifyStack(fns []string) (string, bool) {
 	outer := ""
 	for _, f := range fns { // innermost first; keep overwriting -> outermost
 		if strings.HasPrefix(f, regattaPkg) {
-			outer = strings.TrimPrefix(f, regattaPkg)
+			outer = reGenHandler.ReplaceAllString(strings.TrimPrefix(f, regattaPkg), "regattapb._${1}_*_Handler")
 		}
 	}
 	if outer != "" {
